@@ -20,10 +20,10 @@ func genInject(r *rng, out *bufio.Writer, nprog int, maxK int) {
 		base := uint16(0x0100 + 0x10*r.n(16))
 		v.W[12] = base
 		v.W[8] = 0x2000 | uint16(r.u8()) // I = 0x20
-		mode := 1 + r.n(2)                // IM 1 or IM 2
+		mode := r.n(3) // IM 0, IM 1 or IM 2
 		var prog []uint8
 		emit := func(b ...uint8) { prog = append(prog, b...) }
-		emit(0xed, []uint8{0x56, 0x5e}[mode-1]) // IM 1 / IM 2
+		emit(0xed, []uint8{0x46, 0x56, 0x5e}[mode]) // IM 0 / IM 1 / IM 2
 		safe := func(k int) {
 			for j := 0; j < k; j++ {
 				ins := r.safeInstr()
@@ -84,7 +84,10 @@ func genInject(r *rng, out *bufio.Writer, nprog int, maxK int) {
 			in   Intr
 		}
 		kinds := []kind{{"nmi", Intr{Type: 0}}}
-		if mode == 1 {
+		if mode == 0 {
+			// mode 0: the device supplies RST 38h or CALL 0080h (known findings KF-1 / KF-2 apply)
+			kinds = append(kinds, kind{"im0rst", Intr{Type: 1, Data: []uint8{0xff}}}, kind{"im0call", Intr{Type: 1, Data: []uint8{0xcd, 0x80, 0x00}}})
+		} else if mode == 1 {
 			kinds = append(kinds, kind{"im1", Intr{Type: 1, Data: []uint8{r.u8()}}})
 		} else {
 			kinds = append(kinds, kind{"im2v00", Intr{Type: 1, Data: []uint8{0x00}}}, kind{"im2v13", Intr{Type: 1, Data: []uint8{0x13}}}, kind{"im2vfe", Intr{Type: 1, Data: []uint8{0xfe}}})
